@@ -9,13 +9,21 @@ from harness.interp import World
 class Cat(State):
     items: Sequence[int]
 
+    def __len__(self) -> int:      # sized, and empty as far as truthiness goes
+        return 0
+
 
 class Last(State):
     v: int
 
 
 class Sum(State):
+    """(falsy: a recorded metric is an arbitrary State - e.g. a counter at zero may well be falsy)"""
+
     v: int
+
+    def __bool__(self) -> bool:
+        return False
 
 
 class Boom(State):
